@@ -54,6 +54,11 @@ func (r result) ev(kind string) vt.Ev {
 	if r.op.from != "" {
 		e["msg"] = vt.Hex(r.msg)
 	}
+	if r.op.meta != nil {
+		for k, v := range r.op.meta(r.in) {
+			e[k] = v
+		}
+	}
 	return e
 }
 
@@ -121,6 +126,34 @@ func scenario(w *vt.Writer, t *conc.Target, ops []*op, G, K int, sc int) {
 			nClass++
 		}
 	}
+	// every goroutine's schedule of calls is fixed before the barrier: 3 of 4 calls go to the primitive's
+	// operations, the rest to handle reads / registry lookups. A randomized producing call gets an input of
+	// its own (message || goroutine || sequence number): two streams / ciphertexts / tokens that get mixed up
+	// are then distinguishable, and the alone inverse must give back exactly THAT call's input.
+	type planned struct {
+		o *op
+		x input
+	}
+	plans := make([][]planned, G)
+	for g := 0; g < G; g++ {
+		gr := vt.Rng(int64(sc)*4099 + int64(g)*17 + 5)
+		for i := 0; i < K; i++ {
+			var o *op
+			if gr.Intn(4) < 3 || nClass == len(ops) {
+				o = ops[gr.Intn(nClass)]
+			} else {
+				o = ops[nClass+gr.Intn(len(ops)-nClass)]
+			}
+			ins := inputs[o.name]
+			x := ins[gr.Intn(len(ins))]
+			if o.rand && o.from == "" {
+				u := append(append([]byte{}, x.in...), byte(g), byte(i), byte(i>>8))
+				x = input{u, u}
+				w.Emit(run1(o, x.in, x.msg).ev("alone")) // the same call, alone
+			}
+			plans[g] = append(plans[g], planned{o, x})
+		}
+	}
 	res := make([][]result, G)
 	start := make(chan struct{})
 	var wg sync.WaitGroup
@@ -129,27 +162,9 @@ func scenario(w *vt.Writer, t *conc.Target, ops []*op, G, K int, sc int) {
 		go func(g int) {
 			defer wg.Done()
 			buf := make([]result, 0, K)
-			// the goroutine's own schedule of calls: 3 of 4 calls go to the primitive's operations, the rest to
-			// handle reads / registry lookups; fixed before the barrier
-			gr := vt.Rng(int64(sc)*4099 + int64(g)*17 + 5)
-			sched := make([]*op, K)
-			for i := range sched {
-				if gr.Intn(4) < 3 || nClass == len(ops) {
-					sched[i] = ops[gr.Intn(nClass)]
-				} else {
-					sched[i] = ops[nClass+gr.Intn(len(ops)-nClass)]
-				}
-			}
-			pick := make([]int, K)
-			for i := range pick {
-				pick[i] = gr.Intn(1 << 20)
-			}
 			<-start
-			for i := 0; i < K; i++ {
-				o := sched[i]
-				ins := inputs[o.name]
-				x := ins[pick[i]%len(ins)]
-				buf = append(buf, run1(o, x.in, x.msg))
+			for _, c := range plans[g] {
+				buf = append(buf, run1(c.o, c.x.in, c.x.msg))
 			}
 			res[g] = buf
 		}(g)
